@@ -192,6 +192,9 @@ def cost_case(seed):
         d = float("%.4f" % (rnd.choice(inches) * 0.0254 + rnd.choice([0.0, 0.02, -0.02])))
         wn.add_valve("v%d" % k, "J4", "J5", diameter=d, valve_type="PRV", initial_setting=20.0)
         prvs.append({"diam": num(d)})
+    for k in range(rnd.randint(0, 2)):          # valves of other types cost nothing in the documented table (PRVs only)
+        wn.add_valve("w%d" % k, "J3", "J4", diameter=rnd.choice([0.2, 0.3, 0.4572]), valve_type=rnd.choice(["TCV", "FCV", "PSV"]),
+                     initial_setting=rnd.choice([0.01, 10.0]))
     for k in range(rnd.randint(0, 2)):
         P = float(rnd.choice([5000, 8000, 12700, 17000, 18000, 24000, 28000, 30000, 41000, 60000]))
         wn.add_pump("pp%d" % k, "R", "J%d" % k, pump_type="POWER", pump_parameter=P)
